@@ -42,6 +42,8 @@ func main() {
 		{Cfg: mk("3331-byz-small", []int64{3, 3, 3, 1}, netsim.Config{Byz: []int{3}}), Bound: b},
 		{Cfg: mk("2111-byz-small", []int64{2, 1, 1, 1}, netsim.Config{Byz: []int{3}}), Bound: b - 1},
 		{Cfg: mk("4x1-two-heights", one, netsim.Config{Byz: []int{3}, TargetHeight: 2}), Bound: b - 1},
+		// seven validators, two of them Byzantine (2/7 < 1/3), both offering the A/B proposals and votes
+		{Cfg: mk("7x1-two-byz", []int64{1, 1, 1, 1, 1, 1, 1}, netsim.Config{Byz: []int{5, 6}, ByzVariants: []string{"A", "B"}}), Bound: b - 1},
 		// the validator set changes while the chain runs (re-powering in force from height 3, the Byzantine validator removed from height 4)
 		{Cfg: mk("4x1-valset-change", one, netsim.Config{Byz: []int{3}, TargetHeight: 5, ValScript: map[uint64][]int64{1: {1, 3, 1, 1}, 2: {1, 3, 1, 0}}}), Bound: b - 1},
 	}
